@@ -426,7 +426,9 @@ def write_evidence(prop, tier, base_seed, agg, wall, code, vio_info, jobs):
         "components": {
             "real": "all of hexital/* from the repo working tree (no stubs)",
             "simulated": ["exchange (price process, market clock)", "feed (fault injector, batching)",
-                          "operator", "observer", "TZ environment via tzset"],
+                          "operator", "observer", "TZ environment via tzset",
+                          "wall clock (hexsim/simclock.py: datetime.now / time.time as seen from hexital modules; "
+                          "library reads of it: %d)" % stats.get("reach:simulated_clock_reads_by_library", 0)],
             "reference_models": getattr(prop, "REFERENCE_MODELS", []),
         },
         "workers": jobs,
